@@ -65,3 +65,34 @@ Theorem C09_tokenize_bond_line : forall ib : N * (N * N * option Z),
   tokenize (prefix ++ bond_line ib) = t "M" :: t "V30" :: bond_toks ib.
 Proof. exact tokenize_bond_line. Qed.
 Print Assumptions C09_tokenize_bond_line.
+
+(* 5. write, then read: the V3000 reader returns exactly the written atoms (in order: index,
+      element, charge when non-zero and within -15..15, mass when > 0, radical when 1..3, the
+      coordinate tokens) and bonds (end points, type, default 1), for every molecule whose
+      symbols are in the element table, whose coordinate tokens float() accepts, whose node
+      names are distinct and whose bonds are listed once between existing nodes *)
+Theorem C09_write_read_roundtrip : forall (line2 : text) (m : mol rpay (option Z)),
+  continues line2 = false -> mol_ok m ->
+  read_v3000 (write_lines line2 m) = ok (map expected_atom (atoms m), map expected_bond (bonds m)).
+Proof. exact write_read_roundtrip. Qed.
+Print Assumptions C09_write_read_roundtrip.
+
+(* the file as one string *)
+Theorem C09_splitlines_write_molfile : forall (line2 : text) (m : mol rpay (option Z)),
+  nolb line2 -> Forall atom_ok (atoms m) ->
+  splitlines (write_molfile line2 m) = write_lines line2 m.
+Proof. exact splitlines_write_molfile. Qed.
+Print Assumptions C09_splitlines_write_molfile.
+
+Theorem C09_write_molfile_line_length : forall (line2 : text) (m : mol rpay (option Z)),
+  nolb line2 -> length line2 <= 79 -> Forall atom_ok (atoms m) ->
+  Forall (fun l => length l <= 79) (splitlines (write_molfile line2 m)).
+Proof. exact write_molfile_line_length. Qed.
+Print Assumptions C09_write_molfile_line_length.
+
+Theorem C09_read_molfile_write_molfile : forall (line2 : text) (m : mol rpay (option Z)),
+  nolb line2 -> continues line2 = false -> mol_ok m ->
+  V2000.read_molfile (write_molfile line2 m)
+  = graph_from_molecule (map expected_atom (atoms m)) (map expected_bond (bonds m)).
+Proof. exact read_molfile_write_molfile. Qed.
+Print Assumptions C09_read_molfile_write_molfile.
